@@ -185,6 +185,7 @@ class Gen:
     def __init__(self, rng, tier):
         self.r, self.tier = rng, tier
         self.feat = set()
+        self.p_compound = 0.0
 
     def R(self, x, allow_avg=True):
         r = self.r
@@ -206,10 +207,52 @@ class Gen:
         self.feat.add(s)
         return op(s, x)
 
-    def S_part(self, name, vec, side=None):
+    def inner_coef(self, coeffn):
+        """a factor that may stand INSIDE a restriction next to the argument: constant, coefficient field, its square"""
+        r = self.r
+        c = r.random()
+        if coeffn and c < 0.5:
+            self.feat.add("coef-field")
+            return fn(coeffn) if r.random() < 0.7 else {"k": "pow", "b": fn(coeffn), "e": 2}
+        if c < 0.8:
+            return {"k": "const", "name": r.choice(["kappa", "beta"])}
+        return gnum(r.choice([2, 3, -1]), r.choice([1, 2]))
+
+    def compound(self, name, vec, side, coeffn):
+        """scalar-valued, linear in `name`: the restriction of a COMPOUND expression (the restriction acts on every
+        function and on the normal vector inside)"""
+        r = self.r
+        f = fn(name)
+        R = (lambda x: self.Rs(x, side)) if side else (lambda x: self.R(x))
+        c = r.random()
+        self.feat.add("compound-restriction")
+        if not vec:
+            if c < 0.45:
+                self.feat.add("R(grad.nn)")
+                return R(op("dot", op("grad", f), NN))
+            if c < 0.75:
+                self.feat.add("R(f*u)")
+                return R(mul(self.inner_coef(coeffn), f))
+            if c < 0.88:
+                self.feat.add("R(f*grad.nn)")
+                return R(mul(self.inner_coef(coeffn), op("dot", op("grad", f), NN)))
+            self.feat.add("R(div grad)")
+            return R(op("div", op("grad", f)))
+        if c < 0.55:
+            self.feat.add("R(vec.nn)")
+            return R(op("dot", f, NN))
+        if c < 0.8:
+            self.feat.add("R(f*vec.nn)")
+            return R(mul(self.inner_coef(coeffn), op("dot", f, NN)))
+        self.feat.add("R(f*vec).nn")
+        return op("dot", R(mul(self.inner_coef(coeffn), f)), NN)
+
+    def S_part(self, name, vec, side=None, coeffn=None):
         """scalar-valued, linear in the function `name`"""
         r = self.r
         f = fn(name)
+        if r.random() < self.p_compound:
+            return self.compound(name, vec, side, coeffn)
         if not vec:
             c = r.random()
             if c < 0.45:
@@ -258,14 +301,18 @@ class Gen:
             fs.append(op("dot", NN, NN))
         if coeffn and side:
             self.feat.add("coef-field")
-            fs.append(op(side, fn(coeffn)))
+            if r.random() < 0.25:
+                self.feat.add("R(f**2)")
+                fs.append(op(side, {"k": "pow", "b": fn(coeffn), "e": 2}))
+            else:
+                fs.append(op(side, fn(coeffn)))
         return fs
 
-    def term(self, case):
+    def term(self, case, u=None, v=None):
         r = self.r
         dim = case["dim"]
         bil = case["form"] == "bilinear"
-        v = r.choice(case["tests"])
+        v = v or r.choice(case["tests"])
         vv = case["funcs"][v]["vec"]
         coeffn = "f" if "f" in case["funcs"] else None
         side = None
@@ -275,14 +322,46 @@ class Gen:
             if r.random() < 0.5:
                 side = cside                # a clean use: everything on the side of the coefficient
         cf = self.coef(dim, coeffn, cside)
+        # a coefficient field INSIDE a restriction always sits on the side of the argument next to it
+        inner = coeffn
         if not bil:
-            return mul(*(cf + [self.S_part(v, vv, side)]))
-        u = r.choice(case["trials"])
+            return mul(*(cf + [self.S_part(v, vv, side, inner)]))
+        u = u or r.choice(case["trials"])
         uv = case["funcs"][u]["vec"]
         if r.random() < 0.7:
-            return mul(*(cf + [self.S_part(u, uv, side), self.S_part(v, vv, side)]))
+            return mul(*(cf + [self.S_part(u, uv, side, inner), self.S_part(v, vv, side, inner)]))
         self.feat.add("dot")
         return mul(*(cf + [op("dot", self.V_part(u, uv, side), self.V_part(v, vv, side))]))
+
+    def coupling(self, case, u, v):
+        """an interior-penalty style coupling of one (trial, test) pair: two-sided, with normal derivatives, so that the
+        pair contributes to BOTH faces and to both interface kernels"""
+        r = self.r
+        uv, vv = case["funcs"][u]["vec"], case["funcs"][v]["vec"]
+        self.feat.add("coupling")
+
+        def J(n, vec):                      # jump-like, scalar-valued
+            return op("jump", fn(n)) if not vec else op("dot", op("jump", fn(n)), NN)
+
+        def A(n, vec):                      # average of the normal flux, scalar-valued
+            c = r.random()
+            if vec:
+                return op("avg", op("div", fn(n))) if c < 0.5 else op("dot", op("avg", fn(n)), NN)
+            if c < 0.6:
+                return op("avg", op("Dn", fn(n)))
+            if c < 0.8:
+                self.feat.add("compound-restriction")
+                self.feat.add("R(grad.nn)")
+                return op("avg", op("dot", op("grad", fn(n)), NN))
+            return op("dot", op("grad", op(r.choice(["minus", "plus"]), fn(n))), NN)
+
+        ts = [mul({"k": "const", "name": "kappa"}, J(u, uv), J(v, vv))]
+        if r.random() < 0.85:
+            ts.append(mul(gnum(-1), J(u, uv), A(v, vv)))
+        if r.random() < 0.7:
+            ts.append(mul(gnum(-1), A(u, uv), J(v, vv)))
+        r.shuffle(ts)
+        return ts
 
 
 def gen_case(rng, tier, idx):
@@ -299,20 +378,26 @@ def gen_case(rng, tier, idx):
             conn.append([[k + 1, a, -1], [k, a, 1]])
     form = "bilinear" if rng.random() < 0.75 else "linear"
     funcs, trials, tests = {}, [], []
-    product = rng.random() < 0.15
+    product = rng.random() < 0.4
+    g.p_compound = 0.0 if rng.random() < 0.45 else rng.choice([0.15, 0.3, 0.6])
     if product:
-        tests = ["v1", "v2"]
-        funcs.update({"v1": {"vec": False}, "v2": {"vec": rng.random() < 0.3}})
+        # product spaces: 2 or 3 components per slot, scalar and vector functions
+        nte = rng.choice([2, 2, 3])
+        ntr = nte if rng.random() < 0.8 else rng.choice([2, 3])
+        tests = ["v%d" % (i + 1) for i in range(nte)]
+        for n in tests:
+            funcs[n] = {"vec": rng.random() < 0.3}
         if form == "bilinear":
-            trials = ["u1", "u2"]
-            funcs.update({"u1": {"vec": False}, "u2": {"vec": rng.random() < 0.3}})
+            trials = ["u%d" % (i + 1) for i in range(ntr)]
+            for n in trials:
+                funcs[n] = {"vec": rng.random() < 0.3}
     else:
         tests = ["v"]
         funcs["v"] = {"vec": rng.random() < 0.35}
         if form == "bilinear":
             trials = ["u"]
             funcs["u"] = {"vec": rng.random() < 0.35}
-    if rng.random() < 0.15:
+    if rng.random() < 0.2:
         funcs["f"] = {"vec": False}
     case = {"dim": dim, "npatch": npatch, "mapped": mapped, "conn": conn, "form": form, "funcs": funcs,
             "trials": trials, "tests": tests, "terms": [], "volume": "mass" if rng.random() < 0.2 else None,
@@ -323,8 +408,33 @@ def gen_case(rng, tier, idx):
     else:
         targets = [rng.randrange(nif) for _ in range(rng.randint(1, 2))] + (["all"] if rng.random() < 0.3 else [])
     for t in targets:
-        nt = rng.randint(1, 3 if tier == "quick" else 4)
-        case["terms"].append({"iface": t, "expr": add(*[g.term(case) for _ in range(nt)])})
+        if product and form == "bilinear" and rng.random() < 0.75:
+            # several (trial, test) pairs, each contributing to the same faces: the blocks accumulate per face
+            pairs = [(u, v) for u in trials for v in tests]
+            rng.shuffle(pairs)
+            pairs = pairs[: rng.randint(2, min(len(pairs), 4 if tier == "quick" else 6))]
+            summands = []
+            for u, v in pairs:
+                if rng.random() < 0.6:
+                    cs = g.coupling(case, u, v)
+                    c = rng.choice([1, 2, 3, -1])
+                    summands += [mul(gnum(c), x) if c != 1 else x for x in cs]
+                else:
+                    summands += [g.term(case, u, v) for _ in range(rng.randint(1, 2))]
+            g.feat.add("pairs:%d" % len(pairs))
+            case["terms"].append({"iface": t, "expr": add(*summands)})
+        elif product and form == "linear" and rng.random() < 0.75:
+            vs = list(tests)
+            rng.shuffle(vs)
+            vs = vs[: rng.randint(2, len(vs))]
+            summands = []
+            for v in vs:
+                summands += [g.term(case, None, v) for _ in range(rng.randint(1, 2))]
+            g.feat.add("pairs:%d" % len(vs))
+            case["terms"].append({"iface": t, "expr": add(*summands)})
+        else:
+            nt = rng.randint(1, 3 if tier == "quick" else 4)
+            case["terms"].append({"iface": t, "expr": add(*[g.term(case) for _ in range(nt)])})
     case["features"] = sorted(g.feat)
     return case
 
@@ -376,8 +486,12 @@ def classify(case, r):
     expl = orc.get("explained_by") or {}
     err = (r or {}).get("err") or {}
     flags = (r or {}).get("flags") or err.get("flags") or []
+    expl = dict(expl, **((r or {}).get("explained_by") or {}))
     if expl.get("coefficient-side-blind"):
         return "cross-side-coefficient"
+    if expl.get("compound-pushed-inward"):
+        # the same form with every restriction of a compound expression written out on the atoms is split correctly
+        return "restriction-of-compound"
     if "unlowered-Average" in flags or "Average" in err.get("msg", ""):
         return "avg-not-expanded"
     if "restriction-of-derivative" in flags and any(has_restricted_derivative(g) for g in gs):
@@ -635,7 +749,7 @@ def main(run, replay=None):
                 h_ops[k] = h_ops.get(k, 0) + v
         bump_h(h_if, str(c["npatch"] - 1))
         kinds = sorted({"vector" if d["vec"] else "scalar" for nme, d in c["funcs"].items() if nme != "f"})
-        bump_h(h_args, "+".join(kinds) + ("/product" if len(c["tests"]) > 1 else ""))
+        bump_h(h_args, "+".join(kinds) + ("/product%dx%d" % (len(c["trials"]) or 1, len(c["tests"])) if len(c["tests"]) > 1 else ""))
         bump_h(h_dim, str(c["dim"]))
         bump_h(h_form, c["form"])
         bump_h(h_map, "mapped" if c.get("mapped") else "plain")
